@@ -14,3 +14,12 @@ def c11_zero_sized_input_raises(w):
     """an input without rows or without columns (or an empty Series in the items form)"""
     k = w['klass']
     return w['what'] == 'valid_concat_raised' and k.get('zero_sized_input') is True
+
+
+@predicate
+def c11_overlay_zero_row_input_raises(w):
+    """Frame.from_overlay with an input without rows: the reindex of a frame onto rows none of which it holds raises inside
+    TypeBlocks.resize_blocks (the mechanism recorded as C03-reindex-no-row-overlap)"""
+    k = w['klass']
+    return (w['what'] == 'valid_overlay_raised' and k.get('op') == 'frame_overlay' and k.get('zero_row_input') is True
+            and k.get('exception') in ('ValueError', 'IndexError'))
